@@ -11,26 +11,26 @@ CONSTANTS
   MaxUDP = 48
   FrameMode = "checked"
   PtrMode = "bounded"
-  UnpackMode = "assign"
+  UnpackMode = "merge"
   DecoderMode = "pure"
   NonceMode = "fresh"
-  ReqLens <- Upto40
-  RespLens <- Upto40
-  LabelLens <- Upto12
-  TxtLens <- Upto40
-  RRLens <- Upto40
-  Counts <- Upto40
-  Chains <- Chains12
+  ReqLens <- Upto17
+  RespLens <- Upto17
+  LabelLens <- Upto8
+  TxtLens <- Upto17
+  RRLens <- Upto17
+  Counts <- Upto17
+  Chains <- Chains6
   Domains <- SmallDomains
-  NameShapes <- BigShapes
+  NameShapes <- SmallShapes
   ObfKinds = {"gcm", "ctr", "xor", "nil"}
   TagLens <- TagLens3
-  Keys = {"k1", "k2", "k3"}
+  Keys = {"k1", "k2"}
   Nonces <- Nonces3
   ParamTypes = {"generic", "prefix", "dtls"}
-  ExReq <- Upto8
-  ExResp <- Upto40
-  ArbStrings <- BigStrings
+  ExReq <- Upto4
+  ExResp <- Upto17
+  ArbStrings <- SmallStrings
 VIEW view
 INVARIANTS RejectNotAlter RoundTrip DecoderTotal Fresh WrongKeyNeverReveals
 CHECK_DEADLOCK FALSE
